@@ -68,7 +68,6 @@ func lockBalance(p *Program, fn *ssa.Function) []balanceLeak {
 	type st map[lockKey]ssa.Instruction
 	// does the function touch a mutex at all?
 	touches := false
-	deferred := map[lockKey]bool{}
 	deferAny := false
 	for _, b := range fn.Blocks {
 		for _, in := range b.Instrs {
@@ -81,9 +80,8 @@ func lockBalance(p *Program, fn *ssa.Function) []balanceLeak {
 				}
 			case *ssa.Defer:
 				if callee := x.Common().StaticCallee(); callee != nil {
-					if acq, rd, ok := syncLockOp(funcName(callee)); ok && !acq && len(x.Common().Args) > 0 {
-						deferred[lockKey{c.term(x.Common().Args[0]), rd}] = true
-						continue
+					if acq, _, ok := syncLockOp(funcName(callee)); ok && !acq && len(x.Common().Args) > 0 {
+						continue // handled flow-sensitively in transfer
 					}
 					if callee.Parent() != nil && closureReleases(p, callee) {
 						deferAny = true // a deferred closure that unlocks: not followed further
@@ -141,10 +139,20 @@ func lockBalance(p *Program, fn *ssa.Function) []balanceLeak {
 				} else {
 					delete(cur, k)
 				}
+			case *ssa.Defer:
+				// a release scheduled on every path to here: recorded in the same must-set
+				if callee := x.Common().StaticCallee(); callee != nil {
+					if acq, rd, ok := syncLockOp(funcName(callee)); ok && !acq && len(x.Common().Args) > 0 {
+						cur[lockKey{"defer " + c.term(x.Common().Args[0]), rd}] = ins
+					}
+				}
 			case *ssa.Return:
 				if leaks != nil {
 					for k, at := range cur {
-						if !deferred[k] {
+						if strings.HasPrefix(k.mu, "defer ") {
+							continue
+						}
+						if _, scheduled := cur[lockKey{"defer " + k.mu, k.read}]; !scheduled {
 							*leaks = append(*leaks, balanceLeak{fn, ins, k, at})
 						}
 					}
